@@ -54,6 +54,7 @@ pub fn shapes() -> Vec<Shape> {
     sh("C08", "time", vec![Int(0, d - 366), Int(0, 86399)]),
     sh("C09", "hour_rand", vec![Int(0, d), Int(0, 23), Int(0, 59), Int(0, 59)]),
     sh("C09", "compose", vec![Int(0, d - 366), Int(0, 86399)]),
+    sh("C09", "stepped", vec![Int(8766, d - 5), Int(0, 86399), Int(-30, 30), Int(0, 1)]),
     sh("C09", "inverse", vec![Int(0, d - 366), Int(0, 86399), Int(0, 60), Int(0, 120)]),
     sh("C10", "history", vec![Groups(5, 24, -20, 10001)]),
     sh("C11", "cyc", vec![Int(0, 41), Int(0, 150), Int(-(1 << 40), 1 << 40)]),
